@@ -165,3 +165,175 @@ LEMMAS = {
                doc='dataset item construction == spec 7.3: constants, 8 x (SuperscalarHash program k, XOR with cache line (r[addrReg] mod lines)), every cache read inside the 256 MiB cache',
                bound='all item numbers, cache contents, address registers', symbolic='itemNumber, cache memory, address registers', stubs=['executeSuperscalar := uninterpreted function per program (S4 decides it per instruction)']),
 }
+
+# ----------------------------------------------------------------------------------------------- S1 operand rules of the generator
+class CutPath(Exception): pass
+
+def _ss_setup(ctx):
+    from lemmas import life
+    mod = Module(ctx['ll']['ss']); return mod
+
+def _ss_interp(mod, fk=None, maxgen=6):
+    from lemmas import life
+    it = Interp(mod)
+    if fk is not None: it.fork = fk
+    H = life.Heap(it, fail=False); cxxlib.install(it, H); life.run_ctors(it, mod)
+    gens = []
+    def getbyte(s, a):
+        if len(gens) >= maxgen: raise CutPath()
+        v = z3.BitVec('gen8_%d' % len(gens), 8); gens.append(v); return v
+    def getu32(s, a):
+        if len(gens) >= maxgen: raise CutPath()
+        v = z3.BitVec('gen32_%d' % len(gens), 32); gens.append(v); return v
+    for f in list(mod.funcs) + ['_ZN7randomx15Blake2Generator7getByteEv', '_ZN7randomx15Blake2Generator9getUInt32Ev']:
+        if 'Blake2Generator7getByteEv' in f: it.hooks[f] = getbyte
+        if 'Blake2Generator9getUInt32Ev' in f: it.hooks[f] = getu32
+    return it, gens
+
+def _fn(mod, sub):
+    c = [f for f in mod.funcs if sub in f]
+    if len(c) != 1: raise Exception('cannot resolve %s: %s' % (sub, c[:3]))
+    return c[0]
+
+SLOT_KINDS = {3: {'ISUB_R', 'IXOR_R', 'IMULH_R', 'ISMULH_R'}, 4: {'IROR_C', 'IADD_RS', 'IMUL_R'}, 7: {'IXOR_C7', 'IADD_C7'}, 8: {'IXOR_C8', 'IADD_C8'}, 9: {'IXOR_C9', 'IADD_C9'}, 10: {'IMUL_RCP'}}
+
+def run_S1a(ctx, case):
+    """createForSlot: which instruction kinds a slot can get and the immediate / mod rules of table 6.1.1"""
+    slot = case['slot']; q = Q(30); mod = _ss_setup(ctx); KN = kind_numbers(); NK = {v: k for k, v in KN.items()}; npaths = [0]; cut = [0]; seen = set()
+    Ls = resolve(NamedT('class.randomx::SuperscalarInstruction', mod)).layout()[0]
+    def one(fk):
+        it, gens = _ss_interp(mod, fk)
+        si = it.mem.alloc(40, 'si')
+        for k in range(0, 40, 8): it.mem.store(Ptr('si', k), z3.BitVec('si_stale%d' % k, 64), 8)
+        fetch = z3.BitVec('fetchType', 32); last = it.decide(z3.BitVec('isLast', 1)); first = it.decide(z3.BitVec('isFirst', 1))
+        fk['pc'] += [fetch >= 0, fetch <= 5]
+        gen = it.mem.alloc(80, 'gen')
+        try: it.call(_fn(mod, 'SuperscalarInstruction13createForSlot'), [si, gen, slot, fetch, last, first])
+        except CutPath: cut[0] += 1; return
+        npaths[0] += 1; pc = fk['pc']
+        info = it.mem.load(Ptr('si', Ls[0]), 8); ty = it.mem.load(Ptr(info.obj, info.off + 8), 4)
+        kind = NK.get(ty if is_c(ty) else -99); tag = 'slot %d -> %s' % (slot, kind); seen.add(kind)
+        ok = kind in SLOT_KINDS[slot]; q.n += 1; q.unsat += ok; q.sat += (not ok)
+        if not ok: q.failed.append(('slot of %d bytes filled with %s (first macro-op size does not match spec 6.3.2)' % (slot, kind), {})); return
+        imm = bv(it.mem.load(Ptr('si', Ls[4]), 4), 32); modv = bv(it.mem.load(Ptr('si', Ls[3]), 4), 32)
+        if kind == 'IROR_C': q.prove(pc, z3.And(z3.UGE(imm, 1), z3.ULE(imm, 63)), tag + ': rotation count in 1..63')
+        elif kind == 'IMUL_RCP': q.prove(pc, z3.And(imm != 0, (imm & (imm - 1)) != 0), tag + ': divisor neither zero nor a power of two')
+        elif kind.startswith('IADD_C') or kind.startswith('IXOR_C'):
+            q.prove(pc, z3.Or([imm == g for g in gens if g.size() == 32]), tag + ': imm32 is the 32-bit generator output')
+        else: q.prove(pc, imm == 0, tag + ': imm32 = 0')
+        if kind == 'IADD_RS': q.prove(pc, z3.Or([modv == z3.ZeroExt(24, g) for g in gens if g.size() == 8]), tag + ': mod is the generator byte (mod.shift from it)')
+        else: q.prove(pc, modv == 0, tag + ': mod = 0')
+        # src_/dst_ reset; reuse flag only for the two high-multiplication kinds
+        cr = it.mem.load(Ptr('si', Ls[7]), 1)
+        q.prove(pc, bv(cr, 8) == (1 if kind in ('IMULH_R', 'ISMULH_R') else 0), tag + ': dst may equal src only for IMULH_R/ISMULH_R')
+        q.prove(pc, z3.And(bv(it.mem.load(Ptr('si', Ls[1]), 4), 32) == 0xffffffff, bv(it.mem.load(Ptr('si', Ls[2]), 4), 32) == 0xffffffff), tag + ': operands unassigned after create')
+    res, nq = explore(one, limit=400); q.n += nq
+    return result('S1', 'createForSlot(%d)' % slot, q, paths=npaths[0], detail='%d paths, kinds %s, %d paths cut at the rejection-loop bound' % (npaths[0], sorted(k for k in seen if k), cut[0]))
+
+def run_S1c(ctx, case):
+    """selectSource / selectDestination / toInstr.
+    which='src'  : selectSource from an arbitrary readiness state (2^8 forks)
+    which='elig' : eligibility of ONE register i for the destination (all its fields symbolic), the other registers not ready;
+                   iterations are independent (read footprint checked), so this is the per-register rule for any state
+    which='pick' : selectDestination over every concrete eligibility pattern (256) with a symbolic generator word: the result is an eligible register"""
+    kind = case['kind']; which = case['which']; q = Q(30); mod = _ss_setup(ctx); KN = kind_numbers(); npaths = [0]
+    Ls = resolve(NamedT('class.randomx::SuperscalarInstruction', mod)).layout()[0]
+    GROUPK = {'ISUB_R': 'IADD_RS', 'IXOR_R': 'IXOR_R', 'IADD_RS': 'IADD_RS', 'IMUL_R': 'IMUL_R', 'IROR_C': 'IROR_C', 'IMULH_R': 'IMULH_R', 'ISMULH_R': 'ISMULH_R', 'IMUL_RCP': 'IMUL_RCP',
+              'IADD_C7': 'IADD_C7', 'IADD_C8': 'IADD_C7', 'IADD_C9': 'IADD_C7', 'IXOR_C7': 'IXOR_C7', 'IXOR_C8': 'IXOR_C7', 'IXOR_C9': 'IXOR_C7'}
+    has_src = kind in ('ISUB_R', 'IXOR_R', 'IADD_RS', 'IMUL_R', 'IMULH_R', 'ISMULH_R'); reuse = kind in ('IMULH_R', 'ISMULH_R')
+    def setup(fk, lat_of, grp_of, par_of):
+        it, gens = _ss_interp(mod, fk, maxgen=4)
+        info = it.glob('_ZN7randomx26SuperscalarInstructionInfo%d%sE' % (len(kind), kind))
+        si = it.mem.alloc(40, 'si'); it.mem.store(Ptr('si', Ls[0]), info, 8)
+        it.mem.store(Ptr('si', Ls[1]), 0xffffffff, 4); it.mem.store(Ptr('si', Ls[2]), 0xffffffff, 4); it.mem.store(Ptr('si', Ls[3]), 0, 4); it.mem.store(Ptr('si', Ls[4]), 0, 4)
+        it.mem.store(Ptr('si', Ls[5]), KN[GROUPK[kind]], 4)
+        it.mem.store(Ptr('si', Ls[7]), 1 if reuse else 0, 1); it.mem.store(Ptr('si', Ls[8]), 1 if kind in ('ISUB_R', 'IXOR_R', 'IADD_RS', 'IMUL_R') else 0, 1)
+        regs = it.mem.alloc(128, 'regs'); R = []
+        for i in range(8):
+            lat, lg, lp = lat_of(i), grp_of(i), par_of(i); R.append((lat, lg, lp))
+            for k_, v in enumerate((lat, lg, lp, 0)): it.mem.store(Ptr('regs', 16 * i + 4 * k_), v, 4)
+        return it, gens, si, regs, R
+    cycle = z3.BitVec('cycle', 32)
+    if which == 'src':
+        def one(fk):
+            it, gens, si, regs, R = setup(fk, lambda i: z3.BitVec('lat%d' % i, 32), lambda i: z3.BitVec('lastGroup%d' % i, 32), lambda i: z3.BitVec('lastPar%d' % i, 32))
+            it.mem.store(Ptr('si', Ls[6]), 0xffffffff, 4); gen = it.mem.alloc(80, 'gen')
+            fk['pc'] += [cycle >= 0, cycle < 1000] + [z3.And(l >= 0, l < 1000) for l, _, _ in R]
+            try:
+                ok = it.call(_fn(mod, 'SuperscalarInstruction12selectSource'), [si, cycle, regs, gen])
+                if not (ok if is_c(ok) else it.decide(ok)): return
+            except CutPath: return
+            npaths[0] += 1; pc = fk['pc']; s32 = bv(it.mem.load(Ptr('si', Ls[1]), 4), 32)
+            q.prove(pc, z3.ULT(s32, 8), kind + ': source in r0..r7')
+            q.prove(pc, z3.Or(V.mux(s32, [l for l, _, _ in R]) <= cycle, z3.And(s32 == 5, z3.BoolVal(kind == 'IADD_RS'))), kind + ': source register ready at the scheduled cycle')
+            if kind in ('ISUB_R', 'IXOR_R', 'IADD_RS', 'IMUL_R'): q.prove(pc, bv(it.mem.load(Ptr('si', Ls[6]), 4), 32) == s32, kind + ': group parameter = source register')
+            extent_checks(q, pc, it.mem, kind)
+        res, nq = explore(one, limit=4000); q.n += nq
+    elif which == 'elig':
+        I = case['reg']
+        def one(fk):
+            sym = lambda nm: (lambda i: z3.BitVec('%s%d' % (nm, i), 32))
+            it, gens, si, regs, R = setup(fk, sym('lat'), sym('lastGroup'), sym('lastPar'))
+            srcv = z3.BitVec('src_chosen', 32); par = z3.BitVec('opGroupPar', 32)
+            it.mem.store(Ptr('si', Ls[1]), srcv, 4); it.mem.store(Ptr('si', Ls[6]), par, 4)
+            chained = it.decide(z3.BitVec('allowChainedMul', 1)); gen = it.mem.alloc(80, 'gen')
+            fk['pc'] += [cycle >= 0, cycle < 1000] + ([srcv >= 0, srcv < 8] if has_src else [srcv == 0xffffffff]) + [R[j][0] > cycle for j in range(8) if j != I] + [z3.And(R[j][0] >= 0, R[j][0] <= 1000) for j in range(8)]
+            reads = []
+            it.mem.rwatch['regs'] = lambda p_, n_: reads.append(p_.off)
+            try:
+                ok = it.call(_fn(mod, 'SuperscalarInstruction17selectDestination'), [si, cycle, chained, regs, gen])
+            except CutPath: return
+            npaths[0] += 1; pc = fk['pc']
+            chosen = ok if is_c(ok) else it.decide(ok)
+            foot = all(is_c(o) for o in reads); q.n += 1; q.unsat += foot; q.sat += (not foot)
+            if not foot: q.failed.append((kind + ': register-info reads at non-constant offsets (iterations not independent)', {}))
+            if not chosen: return
+            d = bv(it.mem.load(Ptr('si', Ls[2]), 4), 32); tag = '%s, candidate r%d' % (kind, I)
+            q.prove(pc, d == I, tag + ': the only ready register is the one selected')
+            q.prove(pc, R[I][0] <= cycle, tag + ': ready at the scheduled cycle')
+            if not reuse: q.prove(pc, srcv != I, tag + ': dst != src (register allowed as its own source only for IMULH_R/ISMULH_R)')
+            if kind == 'IADD_RS': q.prove(pc, z3.BoolVal(I != 5), tag + ': r5 is never the destination of IADD_RS')
+            q.prove(pc, z3.Or(R[I][1] != KN[GROUPK[kind]], R[I][2] != par), tag + ': not the same operation with the same operand twice in a row')
+            if kind == 'IMUL_R': q.prove(pc, z3.Or(chained == 1 if not is_c(chained) else z3.BoolVal(bool(chained)), R[I][1] != KN['IMUL_R']), tag + ': no chained multiplication unless allowed')
+        res, nq = explore(one, limit=400); q.n += nq
+    else:   # pick
+        gword = None
+        for pat in range(256):
+            fk = {'prefix': [], 'taken': [], 'pc': [], 'pending': [], 'queries': 0}
+            it, gens, si, regs, R = setup(fk, lambda i: 0 if (pat >> i) & 1 else 900, lambda i: 0xffffffff, lambda i: 0xffffffff)
+            srcv = case.get('src', 0xffffffff) if has_src else 0xffffffff
+            it.mem.store(Ptr('si', Ls[1]), srcv, 4); it.mem.store(Ptr('si', Ls[6]), 0x7fffffff, 4); gen = it.mem.alloc(80, 'gen')
+            ok = it.call(_fn(mod, 'SuperscalarInstruction17selectDestination'), [si, 5, 0, regs, gen]); npaths[0] += 1
+            elig = [i for i in range(8) if (pat >> i) & 1 and (reuse or i != srcv) and not (kind == 'IADD_RS' and i == 5)]
+            tag = '%s ready=%s' % (kind, format(pat, '08b'))
+            okc = is_c(ok) and bool(ok) == bool(elig); q.n += 1; q.unsat += okc; q.sat += (not okc)
+            if not okc: q.failed.append((tag + ': returns %s with %d eligible registers' % (ok, len(elig)), {})); continue
+            if elig:
+                d = bv(it.mem.load(Ptr('si', Ls[2]), 4), 32)
+                q.prove(fk['pc'], z3.Or([d == e for e in elig]), tag + ': the selected destination is one of the eligible registers')
+                ins = it.mem.alloc(8, 'ins'); it.call(_fn(mod, 'SuperscalarInstruction7toInstr'), [si, ins])
+                q.prove_eq(fk['pc'], it.mem.load(Ptr('ins', 0), 1), KN[kind], tag + ': opcode byte', 8)
+                q.prove(fk['pc'], bv(it.mem.load(Ptr('ins', 1), 1), 8) == z3.Extract(7, 0, d), tag + ': dst byte')
+                sb = bv(it.mem.load(Ptr('ins', 2), 1), 8)
+                q.prove(fk['pc'], sb == (z3.BitVecVal(srcv, 8) if has_src else z3.Extract(7, 0, d)), tag + ': src byte (= dst when the instruction has no source)')
+                extent_checks(q, fk['pc'], it.mem, tag)
+    return result('S1', 'select %s(%s%s)' % (which, kind, ', r%d' % case['reg'] if 'reg' in case else ''), q, paths=npaths[0], detail='%d paths' % npaths[0])
+
+def run_S1(ctx, case):
+    return run_S1a(ctx, case) if 'slot' in case else run_S1c(ctx, case)
+
+def jobs_S1(ctx):
+    quick = ctx['tier'] == 'quick'
+    kinds = ['IADD_RS', 'ISUB_R', 'IMUL_R', 'IMULH_R', 'IMUL_RCP', 'IROR_C'] if quick else ['ISUB_R', 'IXOR_R', 'IADD_RS', 'IMUL_R', 'IROR_C', 'IADD_C7', 'IXOR_C8', 'IADD_C9', 'IMULH_R', 'ISMULH_R', 'IMUL_RCP']
+    J = [dict(slot=s_) for s_ in (3, 4, 7, 8, 9, 10)]
+    for k in kinds:
+        for r_ in ((0, 5) if quick else range(8)): J.append(dict(kind=k, which='elig', reg=r_))
+        J.append(dict(kind=k, which='pick', src=3))
+        if k in ('ISUB_R', 'IXOR_R', 'IADD_RS', 'IMUL_R', 'IMULH_R', 'ISMULH_R') and (not quick or k in ('IADD_RS', 'IMULH_R')): J.append(dict(kind=k, which='src'))
+    return J
+
+LEMMAS['S1'] = dict(jobs=jobs_S1, run=run_S1, units=['ss'], functions=['SuperscalarInstruction::createForSlot', 'create', 'selectSource', 'selectDestination', 'selectRegister', 'toInstr', 'std::vector<int>::push_back'],
+    doc='generator operand rules (table 6.1.1): slot -> instruction kinds, rotation count 1..63, reciprocal divisor neither 0 nor 2^k, mod from the generator byte; for every readiness state of the 8 registers: dst,src in r0..r7, dst != src where required, r5 never the destination of IADD_RS, operands ready at the scheduled cycle',
+    bound='every slot size; every subset of ready registers (forks), symbolic latencies/last-op info/generator outputs; rejection loops unrolled 3 times (longer runs of rejected values cut: termination of those loops is probabilistic)',
+    symbolic='generator bytes/words, register latencies and last-operation info, cycle, fetch type', stubs=['Blake2Generator::getByte/getUInt32 := arbitrary values', 'operator new := ghost heap (no failure)'],
+    outside='termination of the two rejection-sampling loops; the port-scheduling simulation (which instruction sequence a key yields)')
